@@ -208,10 +208,38 @@ def r3(ctx: Context) -> None:
     f = task.methods.get("_call")
     if f is None:
         raise AnalysisError("anchor-vanished: Task._call")
-    ifs = [n for n in f.node.body if isinstance(n, ast.If) and "dev_mode_force_sync_tasks" in ast.unparse(n.test)]
-    ok = bool(ifs) and any(isinstance(x, ast.Return) and "ConcurrentInvocation(" in ast.unparse(x.value) for x in ifs[0].body) and not isinstance(ifs[0].test, ast.UnaryOp)
-    after = [n for n in f.node.body if ifs and n.lineno > ifs[0].lineno]
-    ok = ok and any("route_call" in ast.unparse(n) for n in after)
+    # on the CFG, polarity-aware: the arm taken when dev_mode_force_sync_tasks holds builds a ConcurrentInvocation
+    # and never routes; the other arm routes through the orchestrator and never builds one
+    from ..flow import func_cfg
+
+    g = func_cfg(repo, f)
+    ok = False
+    for tn in [n for n in g.nodes if n.kind == "test" and n.ast is not None]:
+        t = tn.ast
+        neg = False
+        while isinstance(t, ast.UnaryOp) and isinstance(t.op, ast.Not):
+            t, neg = t.operand, not neg
+        if not (isinstance(t, ast.Attribute) and t.attr == "dev_mode_force_sync_tasks"):
+            continue
+        sync_lab = "false" if neg else "true"
+
+        def reach(lab: str) -> set[int]:
+            seen: set[int] = set()
+            stack = [s for s, l_ in g.succ[tn.id] if l_ == lab]
+            while stack:
+                x = stack.pop()
+                if x in seen:
+                    continue
+                seen.add(x)
+                stack.extend(s for s, l_ in g.succ[x] if l_ != "exc")
+            return seen
+
+        a, b = reach(sync_lab), reach("true" if sync_lab == "false" else "false")
+        only_a = [g.nodes[i] for i in a - b if g.nodes[i].ast is not None]
+        only_b = [g.nodes[i] for i in b - a if g.nodes[i].ast is not None]
+        txt_a = " ".join(ast.unparse(n.ast) for n in only_a)
+        txt_b = " ".join(ast.unparse(n.ast) for n in only_b)
+        ok = "ConcurrentInvocation(" in txt_a and "route_call" not in txt_a and "route_call" in txt_b and "ConcurrentInvocation(" not in txt_b
     ctx.add("R3", "Task._call::mode-switch", ok, f.loc(), "" if ok else "Task._call does not select ConcurrentInvocation under dev_mode_force_sync_tasks and the orchestrator otherwise")
     both_same_call = "Call(self, arguments)" in ast.unparse(f.node)
     ctx.add("R3", "Task._call::same-call-both-modes", both_same_call, f.loc(), "")
